@@ -80,12 +80,33 @@ class MsgModel:
         return And(Or(And(Not(n), Not(s)), member), Not(b), Or(Not(m), And(member, voice)))
 
     def fanouts(self):
-        """channel fan-out sends: [(event, send, collection term, rank set name or None)]"""
+        """channel fan-out sends: [(event, send, collection term, rank set name or None, element term)].
+           A send that iterates a local collection filled by extend()/insert() from several sources yields one
+           (virtual) fan-out per source, whose path condition is send.pc && fill.pc."""
         out = []
         for e, s in sends(self.w):
             to = s['to']
             if to[0] == 'idx' and to[1] == USERS:
                 k = to[2]
+                if k[0] == 'elem' and k[1][0] == 'local':
+                    fills = [x for x in self.w.events if x.kind == 'local_mut' and x.data['local'] == k[1]
+                             and x.data['method'] in ('extend', 'insert', 'push')]
+                    hit = False
+                    for x in fills:
+                        src = x.data['args'][0] if x.data['args'] else None
+                        for setname in RANKS:
+                            coll = ('some_of', field(self.modes, setname))
+                            if src == coll or src == ('elem', coll):
+                                out.append((VirtualEvent(e, And(e.pc, x.pc)), s, coll, setname, k))
+                                hit = True
+                        if src in (('keys', self.members), ('elem', ('keys', self.members))):
+                            out.append((VirtualEvent(e, And(e.pc, x.pc)), s, ('keys', self.members), None, k))
+                            hit = True
+                    if hit and len([1 for x in fills]) == len([o for o in out if o[4] == k]):
+                        continue
+                    if hit:
+                        out.append((e, s, None, '?', None))
+                        continue
                 if k == ('elem', ('keys', self.members)):
                     out.append((e, s, ('keys', self.members), None, k))
                     continue
@@ -99,6 +120,20 @@ class MsgModel:
                     continue
             out.append((e, s, None, '?', None))
         return out
+
+
+class VirtualEvent:
+    """a send seen through one of the sources that filled the iterated local collection"""
+    def __init__(self, ev, pc):
+        self.ev = ev
+        self.pc = pc
+        self.node = ev.node
+        self.loops = ev.loops
+        self.seq = ev.seq
+        self.guards = ev.guards
+        self.kind = ev.kind
+        self.data = ev.data
+        self.fn = ev.fn
 
 
 def _is_tt(t, name):
